@@ -95,13 +95,16 @@ TIBegin == /\ Ev.e = "ibegin"
            /\ snap' = (Ev.id :> DOMAIN enc) @@ snap
            /\ UNCHANGED <<enc, dec, op, retOf>>
 \* every value interned when the iteration began is listed exactly once, nothing is listed twice, every listed
-\* pair is in the table; xm = maps that are not enumerable (the empty record of SpecializedRecordMap<0> is a constant)
+\* pair is in the table; xm = maps that are not enumerable (the empty record of SpecializedRecordMap<0> is a constant).
+\* (A state-level operator: TLC evaluates it as a predicate instead of unfolding the quantifiers as an action.)
+IEndOK == LET listed == {Ev.xs[k][1] : k \in 1..Len(Ev.xs)}
+              hidden == {Ev.xm[k] : k \in 1..Len(Ev.xm)} IN
+          /\ Quiescent /\ Ev.id \in DOMAIN snap
+          /\ Cardinality(listed) = Len(Ev.xs)
+          /\ \A k \in 1..Len(Ev.xs) : Ev.xs[k][1] \in DOMAIN enc /\ enc[Ev.xs[k][1]] = Ev.xs[k][2]
+          /\ \A v \in snap[Ev.id] : v \in listed \/ enc[v][1] \in hidden
 TIEnd == /\ Ev.e = "iend"
-         /\ Quiescent /\ Ev.id \in DOMAIN snap
-         /\ LET listed == {Ev.xs[k][1] : k \in 1..Len(Ev.xs)} IN
-            /\ Cardinality(listed) = Len(Ev.xs)
-            /\ \A k \in 1..Len(Ev.xs) : Ev.xs[k][1] \in DOMAIN enc /\ enc[Ev.xs[k][1]] = Ev.xs[k][2]
-            /\ \A v \in snap[Ev.id] : v \in listed \/ enc[v][1] \in {Ev.xm[k] : k \in 1..Len(Ev.xm)}
+         /\ IEndOK
          /\ UNCHANGED <<enc, dec, op, retOf, snap>>
 TReset == /\ Ev.e = "reset"
           /\ enc' = <<>> /\ dec' = <<>> /\ op' = [t \in Threads |-> Idle]
